@@ -100,10 +100,14 @@ def _check_records(chunks, runs, layouts, nogap):
         for r, span in c.subruns.items():
             prove(r in runs, "superrun:unknown subrun recorded")
             L = layouts[r]
-            inside = sand(span["start"] >= L.bounds[0], span["end"] <= L.bounds[-1], span["start"] >= c.start,
-                          span["end"] <= c.end)
-            prove(implies(nogap, inside), "superrun:recorded span reaches outside the subrun / the chunk (contiguous subruns)")
-            prove(inside, "superrun:recorded span reaches outside the chunk that carries it (gap between subruns)")
+            in_chunk = sand(span["start"] >= c.start, span["end"] <= c.end)
+            in_subrun = sand(span["start"] >= L.bounds[0], span["end"] <= L.bounds[-1])
+            prove(implies(nogap, sand(in_chunk, in_subrun)),
+                  "superrun:recorded span reaches outside the subrun / the chunk (contiguous subruns)")
+            prove(in_chunk, "superrun:recorded span reaches outside the chunk that carries it (gap between subruns)")
+            prove(in_subrun, "superrun:row-less chunk covering a gap records a subrun beyond the subrun's own range"
+                  if len(c.data) == 0 else
+                  "superrun:recorded span reaches outside the subrun's own range (gap between subruns)")
         for q in range(len(c.data)):
             i = int(c.data["id"][q])
             owner = next(r for r in runs if any(i == x[2] for x in layouts[r].rows))
